@@ -7,3 +7,18 @@ def run(ctx):
     ctx.assumptions += ["transport adapter behaviour on reopen (cancel-before-request, pending extensions) is checked on the real adapter by the gstx harness"]
     stages.mgr_family(ctx, ["C10."], ["all"], lambda s: s["stim"]["kind"] in ("Restart", "RecvRestartExisting") or s["stim"]["msg"]["kind"] in ("Restart", "RestartExisting"),
                       quick_n=5000, invariants=["M_C10_Identity", "M_C10_Skip"])
+    # transport-adapter part on the REAL graphsync adapter (virtual time): cancel-before-request, skip count, pending messages once
+    b = ctx.go_bin("gstx")
+    out = ctx.path("reopenobs.ndjson")
+    ctx.must_run_go(b, "TestReopen", env={"VERIF_OUT": out}, timeout=600)
+    n, verdicts = stages.judge(ctx, out, module="ReopenJudge")
+    idx = stages.index_obs(out)
+    for v in verdicts:
+        c = idx[v["case"]]
+        ctx.violation({"rule": v["rule"], "kind": v["op"]}, "%s violated on the real graphsync adapter (case %s)" % (v["rule"], v["case"]),
+                      detail={"steps": [(s["a"]["op"], s["a"].get("m"), [(g["call"], g["r"], g["x"], g["n"]) for g in s.get("gsc", [])], [(h["a"], h["n"]) for h in s.get("hook", []) if h["a"] == "SendExtensionData"]) for s in c["steps"]]})
+    for c in idx.values():
+        ctx.traces += 1
+        ctx.evaluations += len(c["steps"])
+        ctx.distinct.add(("reopen", c["case"]))
+    ctx.extra["adapter_reopen_cases"] = n
